@@ -45,7 +45,7 @@ Terms ==
             \cup {DT(<<11>>, <<x>>) : x \in inner} \cup {DT(<<11, 12>>, <<x, y>>) : x \in inner, y \in LitH \cup inner}
     [] Shape = "dict" -> {d \in {DT(ks, e) : ks \in KeySeqs(Width), e \in SeqUpTo(Leaf0, Width)} : Len(d.k) = Len(d.e)}
     \* (the constructor of a defaultdict consumes its arguments: they cannot be Is(...) objects)
-    [] Shape = "pos" -> {CT(PosCls, p, <<>>, <<>>) : p \in SeqUpTo({Lit(n, c) : n \in Atoms, c \in BOOLEAN}, 2) \ {<<>>}}
+    [] Shape = "pos" -> {CT(PosCls, p, <<>>, <<>>) : p \in SeqUpTo({Lit(n, c) : n \in Atoms, c \in BOOLEAN}, 2)}
     [] Shape = "call" -> {c \in {CT(cl, p, kn, ke) : cl \in (DOMAIN Fields) \ {PosCls}, p \in SeqUpTo(Leaf0, 1),
                                    kn \in SeqUpTo(1..3, 2), ke \in SeqUpTo(Leaf0, 2)} :
                              Len(c.kn) = Len(c.ke) /\ WellFormedCall(c)}
